@@ -33,10 +33,10 @@ type assocPair struct {
 }
 
 type assocMsg struct {
-	msg       *gtfsrt.FeedMessage
-	pairs     []*assocPair
-	key       string // identifies the message up to entity order
-	conflicts bool
+	msg                                   *gtfsrt.FeedMessage
+	pairs                                 []*assocPair
+	key                                   string // identifies the message up to entity order
+	conflicts                             bool
 	extraTrip, extraVehicle, alertMention bool
 }
 
@@ -49,7 +49,8 @@ var tripRelationships = []*gtfsrt.TripDescriptor_ScheduleRelationship{nil, gtfsr
 	gtfsrt.TripDescriptor_CANCELED.Enum(), gtfsrt.TripDescriptor_REPLACEMENT.Enum(), gtfsrt.TripDescriptor_DUPLICATED.Enum(), gtfsrt.TripDescriptor_DELETED.Enum()}
 
 // assocVariant: 0 plain; 1 the trip descriptors carry a schedule relationship (choice point);
-// 2 an alert naming the trips of all pairs (and a stop) may be added
+// 2 an alert naming the trips of all pairs (and a stop) may be added; 3 as 1 without the relationship:
+// optional fields on the vehicle position, is_deleted on either entity
 func genAssoc(c *Ctx, nPairs int, withExtras bool, withConflicts bool) *assocMsg {
 	return genAssocV(c, nPairs, withExtras, withConflicts, 0)
 }
@@ -90,7 +91,13 @@ func genAssocV(c *Ctx, nPairs int, withExtras bool, withConflicts bool, variant 
 			if ap.vd != nil && tuNamesVehicle {
 				tu.Vehicle = cloneVD(ap.vd)
 			}
-			ents = append(ents, &gtfsrt.FeedEntity{Id: sp(fmt.Sprintf("tu%d", i+1)), TripUpdate: tu})
+			e := &gtfsrt.FeedEntity{Id: sp(fmt.Sprintf("tu%d", i+1)), TripUpdate: tu}
+			if (variant == 1 || variant == 3) && c.Free(p+"trip_update_entity_is_deleted", 2) == 1 {
+				yes := true
+				e.IsDeleted = &yes // the library does not act on is_deleted: the entity counts like any other
+				key.WriteString("tuDeleted ")
+			}
+			ents = append(ents, e)
 		}
 		if hasVP {
 			ap.vpStop = fmt.Sprintf("VS%d", i+1)
@@ -105,7 +112,32 @@ func genAssocV(c *Ctx, nPairs int, withExtras bool, withConflicts bool, variant 
 			} else if ap.vdesc == 4 {
 				vp.Vehicle = &gtfsrt.VehicleDescriptor{Id: sp(""), Label: sp("")} // fields present but empty: still no id
 			}
-			ents = append(ents, &gtfsrt.FeedEntity{Id: sp(fmt.Sprintf("vp%d", i+1)), Vehicle: vp})
+			if variant == 1 || variant == 3 {
+				// optional fields of the position entity: what is reached through the links must be the
+				// very content of the top-level entry, whichever fields it has
+				f := c.Free(p+"vehicle_position_fields", 4)
+				fmt.Fprintf(&key, "vpFields=%d ", f)
+				switch f {
+				case 1:
+					vp.CurrentStopSequence = u32p(7) // without current_status
+				case 2:
+					vp.CurrentStatus = gtfsrt.VehiclePosition_STOPPED_AT.Enum()
+				case 3:
+					lat, lon := float32(40.5), float32(-73.25)
+					vp.CurrentStopSequence, vp.CurrentStatus = u32p(9), gtfsrt.VehiclePosition_INCOMING_AT.Enum()
+					vp.Position = &gtfsrt.Position{Latitude: &lat, Longitude: &lon}
+					vp.Timestamp = u64p(1700000123)
+					vp.OccupancyPercentage = u32p(55)
+					vp.CongestionLevel = gtfsrt.VehiclePosition_CONGESTION.Enum()
+				}
+			}
+			e := &gtfsrt.FeedEntity{Id: sp(fmt.Sprintf("vp%d", i+1)), Vehicle: vp}
+			if (variant == 1 || variant == 3) && c.Free(p+"vehicle_entity_is_deleted", 2) == 1 {
+				yes := true
+				e.IsDeleted = &yes
+				key.WriteString("vpDeleted ")
+			}
+			ents = append(ents, e)
 		}
 		// the feed associates trip and vehicle iff the trip update names a (non-empty) vehicle or
 		// the vehicle position names the trip
@@ -195,8 +227,12 @@ var conflictingMessageCache []byte
 func conflictingMessage() []byte {
 	if conflictingMessageCache == nil {
 		m := newFeed(cp(&tsAlphabet[0]))
-		td := func(i int) *gtfsrt.TripDescriptor { return &gtfsrt.TripDescriptor{TripId: sp(fmt.Sprintf("T%d", i)), RouteId: sp("R")} }
-		vd := func(i int) *gtfsrt.VehicleDescriptor { return &gtfsrt.VehicleDescriptor{Id: sp(fmt.Sprintf("V%d", i)), Label: sp("common label")} }
+		td := func(i int) *gtfsrt.TripDescriptor {
+			return &gtfsrt.TripDescriptor{TripId: sp(fmt.Sprintf("T%d", i)), RouteId: sp("R")}
+		}
+		vd := func(i int) *gtfsrt.VehicleDescriptor {
+			return &gtfsrt.VehicleDescriptor{Id: sp(fmt.Sprintf("V%d", i)), Label: sp("common label")}
+		}
 		m.Entity = []*gtfsrt.FeedEntity{
 			{Id: sp("c1"), TripUpdate: &gtfsrt.TripUpdate{Trip: td(1), Vehicle: vd(1)}},
 			{Id: sp("c2"), TripUpdate: &gtfsrt.TripUpdate{Trip: td(2), Vehicle: vd(1)}},
@@ -337,7 +373,7 @@ func init() {
 	register(&Check{
 		ID:    "C04",
 		Level: "model_checking",
-		Rule: "full product: 2 pairs optionally with an alert naming the trips of both; 1 pair whose trip descriptor carries every schedule relationship (unset, SCHEDULED, ADDED, UNSCHEDULED, CANCELED, REPLACEMENT, DUPLICATED, DELETED); 1 pair (+ optional unrelated trip, unrelated vehicle, alert mentioning the trip, alert naming two new trips), each optionally preceded in the same process by the parse of a conflicting message about the same ids and 2 pairs; association expressed by {TU, VP, both} x vehicle descriptor {id, label only, none, present but empty} x trip descriptor {trip id, route+direction+start}; all n! entity orders (n<=5); all map rotations at every library range; thorough adds 2 pairs with extras; " +
+		Rule: "full product: 2 pairs optionally with an alert naming the trips of both; 1 pair whose trip descriptor carries every schedule relationship, whose vehicle position carries 4 sets of optional fields (current_stop_sequence without current_status, ...) and whose entities may be flagged is_deleted (unset, SCHEDULED, ADDED, UNSCHEDULED, CANCELED, REPLACEMENT, DUPLICATED, DELETED); 1 pair (+ optional unrelated trip, unrelated vehicle, alert mentioning the trip, alert naming two new trips), each optionally preceded in the same process by the parse of a conflicting message about the same ids and 2 pairs; association expressed by {TU, VP, both} x vehicle descriptor {id, label only, none, present but empty} x trip descriptor {trip id, route+direction+start}; all n! entity orders (n<=5); all map rotations at every library range; thorough adds 2 pairs with extras; " +
 			"non-trivial = every distinct message; oracle = link invariants on the real result",
 		Assumptions: []string{"entries are located by identifier, id-less vehicles by the stop id of their position entity"},
 		Scenarios: func(tier string) []*Scenario {
